@@ -53,8 +53,11 @@ pub fn plan(rng: &mut Rng, profile: Profile, small: bool) -> HistPlan {
     let big = !small && !slow && rng.chance(1, 12);
     let tail = if small { 10 + rng.usize(50) } else if big { 300 + rng.usize(900) } else { 30 + rng.usize(270) };
     let max_len = if small { 70 } else if big { 3000 } else if slow { 140 } else { 500 };
+    // under Miri every monitor step costs ~1 s if the full comparison runs each call: the
+    // interpreter is there for undefined behaviour in the crate's own paths, so thin the model
+    let (ce, cu) = if cfg!(miri) { (12, 3) } else if big { (8, 4) } else { (1, 1) };
     HistPlan {
-        cfg: Cfg { elem, bh: Bh::new(mode, rng.below(4)), cap, check_every: if big { 8 } else { 1 }, cursor_every: if big { 4 } else { 1 }, focus: "" },
+        cfg: Cfg { elem, bh: Bh::new(mode, rng.below(4)), cap, check_every: ce, cursor_every: cu, focus: "" },
         keyspace,
         tail,
         max_len,
@@ -135,6 +138,7 @@ pub fn replay(a: &Args) -> i32 {
             }
         },
         "set" => crate::sets::replay_set(&r, &path),
+        "fault" => crate::fault::replay_fault(&r, &path),
         other => {
             println!("replay kind {other}: re-run the check with the seed recorded in the file");
             2
